@@ -67,10 +67,10 @@ func init() {
 		"(*sync.Mutex).Lock":      extMutexLock,
 		"(*sync.Mutex).Unlock":    extMutexUnlock,
 		"(*sync.Mutex).TryLock":   func(fr *frame, a []value) value { return true },
-		"(*sync.RWMutex).Lock":    extNop,
-		"(*sync.RWMutex).Unlock":  extNop,
-		"(*sync.RWMutex).RLock":   extNop,
-		"(*sync.RWMutex).RUnlock": extNop,
+		"(*sync.RWMutex).Lock":    extMutexLock, // readers are serialised too (fewer interleavings, same ordering edges)
+		"(*sync.RWMutex).Unlock":  extMutexUnlock,
+		"(*sync.RWMutex).RLock":   extMutexLock,
+		"(*sync.RWMutex).RUnlock": extMutexUnlock,
 		"(*sync.WaitGroup).Add":   extNop,
 		"(*sync.WaitGroup).Done":  extNop,
 		"(*sync.WaitGroup).Wait":  func(fr *frame, a []value) value { fr.i.waitAll(); return nil },
@@ -202,6 +202,7 @@ func extMutexLock(fr *frame, a []value) value {
 		me.blocked = nil
 	}
 	i.sch.mutexes[p] = me.id + 1
+	i.raceAcquire(p)
 	return nil
 }
 
@@ -210,6 +211,7 @@ func extMutexUnlock(fr *frame, a []value) value {
 	if i.sch == nil || len(i.sch.gs) == 1 {
 		return nil
 	}
+	i.raceRelease(a[0].(*value))
 	delete(i.sch.mutexes, a[0].(*value))
 	i.yield()
 	return nil
@@ -260,6 +262,8 @@ func extTimeNow(fr *frame, a []value) value {
 
 func extOnceDo(fr *frame, a []value) value {
 	o := a[0].(*value)
+	fr.i.raceAcquire(o)
+	defer fr.i.raceRelease(o)
 	st := (*o).(structure)
 	// field 0 is "done" whose representation differs across Go versions
 	switch d := st[0].(type) {
@@ -302,6 +306,7 @@ func (i *interpreter) poolOf(p *value) *poolState {
 func extPoolGet(fr *frame, a []value) value {
 	i := fr.i
 	p := a[0].(*value)
+	i.raceAcquire(p)
 	ps := i.poolOf(p)
 	if n := len(ps.items); n > 0 {
 		v := ps.items[n-1]
@@ -331,6 +336,7 @@ func extPoolPut(fr *frame, a []value) value {
 	if x.t == nil {
 		return nil
 	}
+	i.raceRelease(p)
 	ps := i.poolOf(p)
 	ps.items = append(ps.items, x)
 	if i.epoch {
@@ -343,6 +349,8 @@ func extPoolPut(fr *frame, a []value) value {
 
 func extAtomicAdd(fr *frame, a []value) value {
 	fr.i.yield()
+	fr.i.raceAtomic(a[0], true)
+	defer fr.i.raceRelease(a[0])
 	p := a[0].(*value)
 	nv := fr.i.binop(tokenADD, nil, *p, a[1])
 	fr.i.storeCell(p, nv)
@@ -350,15 +358,21 @@ func extAtomicAdd(fr *frame, a []value) value {
 }
 func extAtomicLoad(fr *frame, a []value) value {
 	fr.i.yield()
+	fr.i.raceAtomic(a[0], false)
+	defer fr.i.raceRelease(a[0])
 	return *(a[0].(*value))
 }
 func extAtomicStore(fr *frame, a []value) value {
 	fr.i.yield()
+	fr.i.raceAtomic(a[0], true)
+	defer fr.i.raceRelease(a[0])
 	fr.i.storeCell(a[0].(*value), a[1])
 	return nil
 }
 func extAtomicSwap(fr *frame, a []value) value {
 	fr.i.yield()
+	fr.i.raceAtomic(a[0], true)
+	defer fr.i.raceRelease(a[0])
 	p := a[0].(*value)
 	old := *p
 	fr.i.storeCell(p, a[1])
@@ -366,6 +380,8 @@ func extAtomicSwap(fr *frame, a []value) value {
 }
 func extAtomicCAS(fr *frame, a []value) value {
 	fr.i.yield()
+	fr.i.raceAtomic(a[0], true)
+	defer fr.i.raceRelease(a[0])
 	p := a[0].(*value)
 	eq := fr.i.equalsV(nil, *p, a[1])
 	if fr.i.truth(eq) {
